@@ -5,7 +5,7 @@
    timing (position, chord, grace, backup/forward, furthest position = end of the measure).
    All theorems quantify over ALL inputs (any number of voices, gaps, chords with unequal
    durations, grace notes, non-note elements, divisions segments). *)
-From PV Require Import Lib.Base Model.C03 Model.C03_Imp Model.C03_Grp Model.C03_Rng Proofs.C03 Proofs.C03_Seq Proofs.C03_Q Proofs.C03_Imp Proofs.C03_Grp Proofs.C03_Rng.
+From PV Require Import Lib.Base Model.C03 Model.C03_Imp Model.C03_Grp Model.C03_Rng Model.C03_Hist Proofs.C03 Proofs.C03_Seq Proofs.C03_Q Proofs.C03_Imp Proofs.C03_Grp Proofs.C03_Rng Proofs.C03_Hist.
 From Coq Require Import QArith.
 From Coq Require Import Permutation.
 #[local] Open Scope Z_scope.
@@ -288,3 +288,43 @@ Theorem example_measure :
    EForward 4; EDivisions 6; ENote 7 6 false false 1; EForward 6].
 Proof. exact (conj ex_hypotheses ex_linearize). Qed.
 Print Assumptions example_measure.
+
+(* ---- state carried between calls (Model/C03_Hist.v: the per-call counters of save_musicxml, Score.parts vs
+   Score.part_structure, score[i] = part, in-place edits).  For EVERY history of calls, in-place edits and part
+   replacements, from EVERY process state (whatever counters an earlier call left, whatever earlier result, whatever
+   the second view holds): the k-th save_musicxml call writes save (Score.parts as they are at that call). *)
+Theorem history_save_current : forall h pr, run h pr = map save (parts_at h (p_parts pr)).
+Proof. exact run_current. Qed.
+Print Assumptions history_save_current.
+
+(* the call after any history h writes save (the parts after h) *)
+Theorem history_last_call : forall h pr, run (h ++ [HSave]) pr = run h pr ++ [save (cur_parts h (p_parts pr))].
+Proof. exact run_last. Qed.
+Print Assumptions history_last_call.
+
+(* two processes agreeing on Score.parts cannot be told apart by any history *)
+Theorem history_parts_only : forall h pr pr', p_parts pr = p_parts pr' -> run h pr = run h pr'.
+Proof. exact run_parts_only. Qed.
+Print Assumptions history_parts_only.
+
+(* not vacuous: module-level counters, a memoised result, or iterating the other view ARE told apart *)
+Theorem history_leaky_refuted : exists h s, run_with step_leaky h (mkP s s c0 None) <> map save (parts_at h s).
+Proof. exact leaky_refuted_lemma. Qed.
+Print Assumptions history_leaky_refuted.
+
+Theorem history_memo_refuted : exists h s, run_with step_memo h (mkP s s c0 None) <> map save (parts_at h s).
+Proof. exact memo_refuted_lemma. Qed.
+Print Assumptions history_memo_refuted.
+
+Theorem history_structure_refuted : exists h s, run_with step_structure h (mkP s s c0 None) <> map save (parts_at h s).
+Proof. exact structure_refuted_lemma. Qed.
+Print Assumptions history_structure_refuted.
+
+Theorem history_example :
+  run [HSave; HSetPart 0 ex_p3; HSave] (mkP [ex_p1; ex_p2] [ex_p1; ex_p2] c0 None) =
+  [ [ ([(1, 1); (2, 1)], [[(1, true)]; [(1, false)]], []);
+      ([(2, 2); (3, 1)], [[(1, true); (2, true)]; [(1, false)]], [[(1, true)]; [(1, false)]]) ];
+    [ ([(7, 1)], [[(1, true)]], []);
+      ([(2, 1); (3, 1)], [[(2, true); (3, true)]; [(2, false)]], [[(1, true)]; [(1, false)]]) ] ].
+Proof. exact hist_example_lemma. Qed.
+Print Assumptions history_example.
